@@ -146,6 +146,33 @@ def run(tier, seed, rng):
                                          classes=pktprops.class_source(groups, r['group']), cls=decl.cname(r['c']),
                                          case={k: (v.hex() if isinstance(v, bytes) else v) for k, v in r.items() if k in ('raw', 'offset')},
                                          value=decl.py_value(r['value']) if 'value' in r else None, observed=oo))
+    # ---- search: when the model and the implementation disagree on an error stack, establish the failing field's begin on the
+    # implementation alone: parse the same input with the class cut before the named field (or run); where that parse ends is
+    # where the named field begins
+    import re as _re, copy as _copy
+    cand = [d for d in disagreements if d['case'].get('kind') == 'roundtrip' and isinstance(d['case'].get('outcome'), dict)
+            and d['case']['outcome'].get('err') == 'unpacking' and len(d['case']['outcome']['stack']) == 1][:8]
+    for d in cand:
+        r = records[d['index']]
+        off_rep, name, cls = r['outcome']['stack'][0]
+        m = _re.fullmatch(r"f(\d+)|between 'f(\d+)' and 'f\d+'", name)
+        if not m:
+            continue
+        i = int(m.group(1) or m.group(2))
+        table = _copy.deepcopy(pktprops.table_of(groups, r['group']))
+        table[r['c']]['fields'] = table[r['c']]['fields'][:i]
+        if any(fd['body'][0] == 'bits' for fd in table[r['c']]['fields'][-1:]) or i == 0:
+            begin = r['offset'] if i == 0 else None
+        else:
+            G = pktcases.Group(table, 0)
+            res = run_impl(os.path.join(VERIF, 'harness', 'impl_pkt.py'),
+                           dict(header=decl.HEADER_PY, blocks=G.blocks(), modname='c12s',
+                                cases=[dict(cls=decl.cname(r['c']), op='roundtrip', raw=r['raw'].hex(), offset=r['offset'])]))
+            begin = res['outcomes'][0].get('end')
+        if begin is not None and begin != off_rep:
+            failures.append(dict(kind='oracle', sig='stack-offset', what=f"PacketError says field {name!r} of {cls} begins at {off_rep}, but the fields before it end at {begin}",
+                                 classes=pktprops.class_source(groups, r['group']), cls=cls, case=dict(raw=r['raw'].hex(), offset=r['offset']),
+                                 observed=r['outcome']))
     # ---- finding D12: descriptor hooks run outside the wrapped region
     probe = run_impl(os.path.join(VERIF, 'harness', 'impl_d12.py'), {})
     for cls, bad, what in probe:
